@@ -121,6 +121,35 @@ var c11Ops = []c11Op{
 	})},
 	{"coerce-lists", c11Coerce(func() map[string]any { return map[string]any{"xs": []any{1, []any{2, nil}}, "f": nil} })},
 	{"coerce-error", c11Coerce(func() map[string]any { return map[string]any{"big": "B11", "f": map[string]any{"req": nil}} })},
+	{"coerce-no-variables", func(s *ast.Schema) string {
+		doc, err := parser.ParseQuery(&ast.Source{Name: "q.graphql", Input: `{ id pet { name } }`})
+		if err != nil {
+			return "parse: " + err.Error()
+		}
+		if errs := validator.Validate(s, doc); len(errs) > 0 {
+			return "invalid: " + errSig(errs)
+		}
+		out, cerr := validator.VariableValues(s, doc.Operations[0], map[string]any{})
+		if cerr != nil {
+			return "error: " + cerr.Error()
+		}
+		res := goRepr(out)
+		if out != nil {
+			out["tagged-by-caller"] = true // the result is the caller's to keep and to change
+		}
+		return res
+	}},
+	{"revalidate-document", func(s *ast.Schema) string {
+		// an input field with a default given a variable without one, inside an object literal; the
+		// same parsed document validated twice
+		doc, err := parser.ParseQuery(&ast.Source{Name: "q.graphql", Input: `query Q($n: Int, $k: [Kind!], $nm: String) { search(f: {req: true, min: $n, kinds: $k, name: $nm}) { __typename } nums(xs: [$n], z: $n) }`})
+		if err != nil {
+			return "parse: " + err.Error()
+		}
+		a := errSig(validator.Validate(s, doc))
+		b := errSig(validator.Validate(s, doc))
+		return a + " | again: " + b
+	}},
 	{"argument-map-fields", c11ArgMap(false)},
 	{"argument-map-directives", c11ArgMap(true)},
 	{"format-schema", func(s *ast.Schema) string {
@@ -761,7 +790,7 @@ func runC11(c *explore.Ctx) {
 		s.WallS = time.Since(t0).Seconds()
 	}
 	if c.Thorough() {
-		sub := []int{1, 3, 6, 8, 13}
+		sub := []int{1, 3, 6, 8, 11, 15} // suggestions, variables, deep introspection, coerce-lists, revalidate-document, format-schema-builtin-compacted
 		s = c.Sub("interleavings-3", fmt.Sprintf("every ordered triple over %d operations as three threads, every schedule with ≤ 2 preemptions", len(sub)), "as above", "schedules with at least one switch")
 		if s != nil {
 			t0 := time.Now()
